@@ -394,6 +394,9 @@ TraceDatagram ==
 TraceNetRun ==
   /\ Ev.ev = "NetRun"
   /\ Rule(l, "LoopAlive", Ev.panics = <<>>, <<"panic on a library thread", Ev.panics>>)
+  \* "no" = answered before the hostile datagrams, silent after them, while a fresh control responder answers
+  /\ Rule(l, "LoopAlive", Ev.answered # "no" /\ Ev.answered_discovery # "no",
+          <<"receive loop stopped answering", "responder", Ev.answered, "discovery", Ev.answered_discovery>>)
   /\ Rule(l, "LockClean", Ev.usable # "no", <<"store unusable after hostile traffic">>)
 
 (* Reparse (C11): bytes e.b accepted by the parser (e.p1), re-serialised plain  *)
